@@ -87,6 +87,37 @@ def valid_path(path):
     return valid
 
 
+def abspath(path: str | os.PathLike[str]) -> str:
+    """
+    Parameters
+    ----------
+    path: str | os.PathLike[str]
+        A path, absolute or relative to the current working directory.
+
+    Returns
+    -------
+    str
+        The absolute path without "." and ".." segments. Unlike
+        os.path.abspath, a ".." that follows a symbolic link to a directory
+        leads to the parent of the link's target, as it does for the
+        operating system (and so for a compiler given the same path).
+    """
+    path = os.fspath(path)
+    if not os.path.isabs(path):
+        path = os.path.join(os.getcwd(), path)
+    result = os.sep
+    for segment in path.split(os.sep):
+        if segment in ("", "."):
+            continue
+        if segment == "..":
+            if os.path.islink(result):
+                result = os.path.realpath(result)
+            result = os.path.dirname(result)
+        else:
+            result = os.path.join(result, segment)
+    return result
+
+
 def _validate_json(json_object: object, schema_name: str) -> bool:
     """
     Validate JSON against a schema.
